@@ -179,7 +179,17 @@ func (s *stream) reopenStream(vbID uint16) {
 	retry := 5
 
 	for {
+		// one attempt at a time with Close and the halves of a rebalance: once the stream has been closed there is
+		// nothing to re-open (the offsets are gone), whoever opens it again opens every vBucket
+		s.lifecycleLock.Lock()
+		if s.observers == nil {
+			s.lifecycleLock.Unlock()
+			logger.Log.Info("re-open of vbID: %d abandoned, the stream has been closed", vbID)
+			return
+		}
 		err := s.openStream(vbID)
+		s.lifecycleLock.Unlock()
+
 		if err == nil {
 			logger.Log.Info("re-open stream, vbID: %d", vbID)
 			break
